@@ -15,7 +15,8 @@
 
   One `Action` = one thing the *environment* does: let the one queued blocking file-system
   operation run (`fs`), answer the one held RPC of a kind (`fetch`, `bcast`, `gettx`), let time
-  pass (`wait`, `giveup`), move a transaction of the fake Celestia mempool (`include`, `drop`),
+  pass (`wait`, `giveup`; `poll` = only the reader's latest-height poll runs, which in the real
+  system also happens while a Celestia RPC is held), move a transaction of the fake Celestia mempool (`include`, `drop`),
   produce sequencer blocks (`bump`), kill the process (`crash`), start it (`restart`), leave a
   partially written temp file behind (`corruptTmp`) and — not benign — overwrite the state
   file (`tamperFile`).  Between two such actions the process runs until it blocks again
@@ -167,6 +168,7 @@ inductive Action where
   | gettx (m : GetTxMode)
   | giveup
   | wait
+  | poll
   | bump (n : Nat)
   | include (t : Nat)
   | drop (t : Nat)
@@ -400,6 +402,9 @@ def step (w : World) : Action → World
   | .gettx m => stepGetTx w m
   | .giveup => stepGiveup w
   | .wait => stepWait w
+  | .poll => match w.proc with
+    | none => w
+    | some p => ({ w with proc := some (observe w p) }).settle
   | .bump n => { w with latest := w.latest + n }
   | .include t =>
     if t ∈ w.mempool then
